@@ -74,6 +74,48 @@ def sweep(ck, datasets, options, seeds, label, max_traces=4000, num_iters=3, off
     return spec_traces
 
 
+def crafted_runs(ck, thorough):
+    """Data whose posterior sits on shapes random small tables rarely reach: (a) one clonal and four well separated
+    subclonal mutations (a clone with four children), (b) sharply informative mutations at high, incompatible CCFs (every
+    term of their siblings' convolution underflows).  Every proposal, with and without outliers, several seeds."""
+    import numpy as np
+    from phyclone.data.base import DataPoint
+
+    def peaked(G, peaks, steep, p_out):
+        xs = np.arange(G)
+        op, opn = (np.log(p_out), np.log1p(-p_out)) if p_out else (0, 0.0)
+        return [DataPoint(i, np.ascontiguousarray(np.array([-steep * (xs - pk) ** 2 for pk in row], dtype=float)), outlier_prob=op, outlier_prob_not=opn) for i, row in enumerate(peaks)]
+
+    sets = [("star", 21, [[20], [4], [5], [6], [3]], 3.0), ("steep_siblings", 41, [[40, 38], [32, 30], [28, 31], [30, 12]], 40.0)]
+    tasks = [(name, G, peaks, steep, prop, outl, s) for (name, G, peaks, steep) in sets for prop in chainlib.PROPOSALS for outl in (0, 0.2)
+             for s in range(4 if thorough else 2)]
+
+    def task(arg):
+        name, G, peaks, steep, prop, outl, s = arg
+        data = peaked(G, peaks, steep, outl)
+        r = chainlib.run_one(len(peaks), len(peaks[0]), 40 + s, dict(proposal=prop, outlier_prob=outl, num_iters=(60 if thorough else 30), burnin=2, num_particles=8,
+                                                                    subtree_update_prob=(0.3 if s % 2 else 0.0)), data=data, want_events=False)
+        r.pop("results", None)
+        return r
+
+    for arg, r in zip(tasks, kernels.parallel_map(task, tasks, chunksize=1)):
+        name, G, peaks, steep, prop, outl, s = arg
+        ck.evaluations += 1
+        tag = "%s data, proposal %s, outlier prob %s, seed %d" % (name, prop, outl, 40 + s)
+        if r["error"]:
+            ck.violation("C19|crafted|exception:%s|%s" % (r["error"].split(":")[0], name), "run aborted with %s [%s]" % (r["error"], tag), {"data": name, "peaks": peaks, "steep": steep, "grid": G, "proposal": prop, "outlier_prob": outl, "seed": 40 + s})
+            continue
+        for kind, msg in r["problems"]:
+            if kind == "inconsistent_entry" and name == "steep_siblings":
+                # these data are outside the underflow window of C02 (convolution terms below 1e-100 of the peak product are
+                # floored, the floored value depends on the order the children are combined in): recorded and recomputed
+                # densities may differ there - the property asks for completion, well-formed complete trees and finite values
+                continue
+            ck.violation("C19|crafted|%s|%s" % (kind, name), "%s [%s]" % (msg, tag), {"data": name, "proposal": prop, "outlier_prob": outl, "seed": 40 + s})
+        ck.nontrivial("crafted|" + tag)
+    ck.extra.setdefault("runs", {})["crafted"] = len(tasks)
+
+
 def cli_runs(ck, thorough):
     """The same through the real command line (click parsing with its clamped ranges, load_data, run(), the trace file)."""
     import gzip
@@ -175,6 +217,7 @@ def run(corrupt=None):
     # incremental SMC weights far below the range of exp()
     heavy_opts = [o for o in long_opts if o["max_time"] == float("inf")][:(120 if thorough else 40)]
     spec_traces += sweep(ck, [(3, 3), (4, 2)] if thorough else [(3, 3)], heavy_opts, seeds[:1], "heavy_data_points", max_traces=100, num_iters=6, offset=900.0)
+    crafted_runs(ck, thorough)
     cli_runs(ck, thorough)
     if corrupt == "trace" and spec_traces:
         ev = spec_traces[0]["events"]
